@@ -242,6 +242,15 @@ def run_property(spec: PropertySpec, tier: str, seed: int, reg: Registry) -> Run
                 run.errors.extend(f'bounded harness crashed on {f.get("scene")}: {f.get("what")}' for f in crashed[:3])
         except Exception as e:
             run.errors.append(f'bounded run crashed: {type(e).__name__}: {e}\n{traceback.format_exc()[-1500:]}')
+    # 6. conformance of the assumed library contracts on the installed versions (label B; a failure is a broken assumption)
+    try:
+        from bounded import libconf
+        run.libconf = libconf.run_conformance(seed)
+        for key, why in run.libconf['failed']:
+            run.errors.append(f'assumed library contract "{key}" does not hold on this installation: {why}')
+    except Exception as e:
+        run.libconf = {'tested': [], 'failed': [], 'untested': [], 'crashed': f'{type(e).__name__}: {e}'}
+        run.errors.append(f'library conformance run crashed: {type(e).__name__}: {e}')
     return run
 
 
@@ -548,6 +557,10 @@ def finish(run: Run, evidence_path: str, checker_cmd: str) -> int:
                                      + ', '.join(getattr(run.reg.get(q), 'properties', ()) or ['-']))[:400]}
             for q in sorted(getattr(run, 'callees', set())) if q not in run.reports],
         'pinned_expression_contracts': sorted(getattr(run, 'pins', set())),
+        'library_contract_conformance': {'label': 'B (native tests of the assumed library contracts on the installed versions; not a proof)',
+                                         'tested': len(getattr(run, 'libconf', {}).get('tested', [])),
+                                         'failed': [list(x) for x in getattr(run, 'libconf', {}).get('failed', [])],
+                                         'untested': getattr(run, 'libconf', {}).get('untested', [])},
         'library_model_operations_used': sorted(getattr(run, 'model_ops', set())),
         'functions_under_frame_contract': sorted(run.frame_functions),
         'frame_analysis_s': round(run.frame_seconds, 3),
